@@ -282,7 +282,7 @@ def main(argv=None):
         "known_findings": n_known,
         "harness_errors": n_err,
     }
-    if not a.only:
+    if not a.only and not os.environ.get("VERIF_NO_EVIDENCE"):
         with open(os.path.join(VERIF, "evidence", "%s.json" % prop), "w") as fh:
             json.dump(ev, fh, indent=1, sort_keys=True, default=str)
     log("== %s: obligations=%d discharged=%d inconclusive=%d violations=%d known=%d errors=%d queries=%d paths=%d "
